@@ -10,6 +10,8 @@ import (
 	"bytes"
 	"fmt"
 	"strconv"
+	"strings"
+	"time"
 
 	"github.com/b2broker/simplefix-go/fix"
 	fixgen "github.com/b2broker/simplefix-go/tests/fix44"
@@ -37,12 +39,16 @@ func execBody(body func() (string, string)) (sig, detail string, steps int) {
 }
 
 func c10Run(c c10Case) (string, string) {
-	w := newWorld(wcfg{Role: c.Role, Buf: 20, HbMin: 5, HbMax: 30, HbInt: 30})
+	hb := 30
+	if strings.Contains(c.Pattern, "p") {
+		hb = 1 // periodic heartbeats enter the outbound history (virtual time passes)
+	}
+	w := newWorld(wcfg{Role: c.Role, Buf: 20, HbMin: 1, HbMax: 30, HbInt: hb})
 	if c.Gap != nil {
 		_ = w.st.SetSeqNum(fix.StorageID{Side: fix.Incoming}, c.Gap[0])
 		w.take()
 		seq := c.Gap[1]
-		w.in(rawFrom(w.peer, w.self, "A", seq, "98=0", "108=30"))
+		w.in(rawFrom(w.peer, w.self, "A", seq, "98=0", "108="+strconv.Itoa(hb)))
 		outs := w.take()
 		if !w.s.IsLogged() {
 			return "gap:not-logged", outsStr(outs)
@@ -72,7 +78,7 @@ func c10Run(c c10Case) (string, string) {
 		return "", ""
 	}
 	// logon, then the outbound history
-	w.logonOK(30)
+	w.logonOK(hb)
 	for i, p := range c.Pattern {
 		switch p {
 		case 'h':
@@ -80,13 +86,21 @@ func c10Run(c c10Case) (string, string) {
 		case 'a':
 			_ = w.s.Send(fixgen.NewMarketDataRequest().SetMDReqID("req-" + strconv.Itoa(i)))
 			vsched.Settle()
+		case 'p':
+			// one heartbeat period of silence: the session's own timer emits a Heartbeat (and, after
+			// two periods without inbound traffic, a TestRequest) - both are part of the sent history
+			time.Sleep(1100 * time.Millisecond)
+			vsched.Settle()
 		}
 	}
-	if !w.s.IsLogged() {
-		return "setup:not-logged", ""
+	if !w.s.IsLogged() && countType(w.outs, "1") == 0 {
+		return "setup:not-logged", "" // (IsLogged is false by design while a TestRequest of the session is outstanding)
 	}
 	sent := append([]outMsg{}, w.outs...) // first transmissions, numbered 1..n
 	n := len(sent)
+	if w.ctxDone {
+		return "", "" // silent-peer rule ended the session during the history: nothing to resend to
+	}
 	for i, o := range sent {
 		if seqOf(o.Msg) != i+1 {
 			return "setup:numbering", fmt.Sprintf("message %d carries %d", i+1, seqOf(o.Msg))
@@ -149,9 +163,9 @@ func runC10(R *vlib.Out) {
 		}
 		return
 	}
-	maxN, pairN := 3, 2
+	maxN, pairN := 4, 2
 	if *vlib.Tier == "thorough" {
-		maxN, pairN = 5, 3
+		maxN, pairN = 6, 4
 	}
 	R.Bounds["max_outbound_history"] = maxN + 1
 	R.Bounds["pairs_of_requests_up_to_history"] = pairN + 1
@@ -196,6 +210,9 @@ func runC10(R *vlib.Out) {
 			}
 			gen(p + "h")
 			gen(p + "a")
+			if strings.Count(p, "p") < 2 {
+				gen(p + "p")
+			}
 		}
 		gen("")
 		for _, p := range pats {
